@@ -25,7 +25,18 @@ def build(ctx):
     im.only(['struct PdfData', 'fn txs_from_data', 'fn find_sell_to_cover_trade_set', 'struct BenefitsAndTrades', 'struct AmendBenefitsRes', 'fn amend_benefit_sales'],
             why='pdf parsing, the itertools subset search and CSV rendering are outside the verifier')
     im.sub(r'(?ms)^use [^;]*;\n', '', 'select')
-    im.ext_fn('find_sell_to_cover_trade_set', why='itertools combination search; contract: distinct candidates, at least one')
+    # find_sell_to_cover_trade_set: the itertools / std iterator chains become stand-ins (H), the search logic itself stays
+    im.replace("for trades in trade_confs.iter().combinations(n) {", "let __combos = hole_combinations(trade_confs, n);\n        for trades in __combos {", 'H')
+    im.sub(r'(\w+)\.iter\(\)\.(all|any)\(\|t\| t\.security == benefit\.security\)', r'hole_\2_same_security(&\1, &benefit.security)', 'H', required=True)
+    im.replace("let n_shares: Decimal = trades.iter().map(|t| t.num_shares).sum();", "let n_shares: Decimal = hole_sum_shares(&trades);", 'H')
+    im.replace("all_matching_trades.push(trades.into_iter().map(|t| *t).collect());", "all_matching_trades.push(hole_deref_refs(trades));", 'H')
+    im.replace("let matching_trades = all_matching_trades.into_iter().next().unwrap();", "let matching_trades = hole_take_first(all_matching_trades);", 'H')
+    im.sub(r'(?s)let mut trade_combos: Vec<TradesCombination> = all_matching_trades\s*\.into_iter\(\)\s*\.map\(\|trades\| \{.*?\}\)\s*\.collect\(\);',
+           'let mut trade_combos: Vec<TradesCombination> = hole_rank_combos(all_matching_trades, benefit);', 'H', required=True)
+    im.sub(r'(?s)let combos_str = trade_combos\s*\.iter\(\).*?\.join\("\\n  "\);', 'let combos_str = crate::fmt_stub();', 'H', required=True)
+    im.replace("Ok(trade_combos.into_iter().next().unwrap().trades)", "Ok(hole_take_first_combo(trade_combos).trades)", 'H')
+    # the local struct of the function becomes a module-level item (R28): Verus has no items inside function bodies
+    im.sub(r'(?s)        struct TradesCombination<\'a> \{.*?\n        \}\n', '', 'R28', required=True)
     im.replace("for benefit in &mut benefits {", "let mut __i: usize = 0;\n    while __i < benefits.len() {\n        let __k = __i;\n        __i += 1;\n        let benefit = &mut benefits[__k];", 'R21')
     im.replace("leftover_trade_confs\n                        .iter()\n                        .enumerate()\n                        .position(|(i, t_)| t_ == t && !indexes.contains(&i))\n                        .unwrap();",
                "hole_position(&leftover_trade_confs, t, &indexes)\n                        .unwrap();", 'H')
@@ -33,8 +44,9 @@ def build(ctx):
     use_et = "use crate::rust_decimal::Decimal;\nuse crate::time::Date;\nuse crate::util::basic::SError;\n"
     use_im = ("use crate::portfolio::CsvTx;\nuse crate::portfolio::Currency;\nuse vstd::multiset::Multiset;\nuse vstd::std_specs::iter::IteratorSpec;\nuse crate::stdx::*;\nuse crate::rust_decimal::Decimal;\nuse crate::time::Date;\nuse crate::util::basic::SError;\nuse crate::portfolio::TxAction;\n"
               "use crate::peripheral::broker::BrokerTx;\nuse crate::peripheral::broker::etrade::{BenefitEntry, SellToCoverData};\n")
+    tc = ("pub struct TradesCombination<'a> {\n    pub trades: Vec<&'a BrokerTx>,\n    pub average_price: Decimal,\n    pub abs_difference_from_benefit_price: Decimal,\n}\n")
     per = (mod('broker', mod('broker_tx', btx.text(), '') + "pub use self::broker_tx::*;\n" + mod('etrade', use_et + et.text()))
-           + mod('etrade_plan_pdf_tx_extract_impl', use_im + im.text()))
+           + mod('etrade_plan_pdf_tx_extract_impl', use_im + tc + im.text()))
     return (shim('base', 'std') + "verus! {\n" + bk.assemble(p, extra_top=mod('peripheral', per))
             + "} // verus!\nfn main() {}\n")
 
